@@ -191,15 +191,9 @@ def run(tier):
 
 
 def judge(rep, recs, meta, wd, D, prop_filter=("C07",)):
-    jin, jout = os.path.join(wd, "judge_in.ndjson"), os.path.join(wd, "judge_out.ndjson")
-    core.write_ndjson(jin, recs)
-    res = core.tlc("Judge_Driver", "Judge_Driver.cfg", workers=1, env={"JUDGE_IN": jin, "JUDGE_OUT": jout},
-                   timeout=3000, heap="6g")
-    if not (res.rc == 0 and "JUDGED" in res.stdout):
-        raise core.MachineryError("Judge_Driver failed:\n" + "\n".join(res.stdout.splitlines()[-30:]))
+    bad, res = core.judge("Judge_Driver", recs, wd, name="judge", unjudgeable="C07_unjudgeable")
     rep.add_tlc("Judge_Driver", res, counts_as_model=False)
     rep.traces += len(recs)
-    bad = core.read_ndjson(jout) if os.path.exists(jout) else []
     for b in bad:
         clause = b["clause"]
         if not clause.startswith(prop_filter):
